@@ -45,7 +45,9 @@ pub fn panic_message(p: &Box<dyn std::any::Any + Send>) -> String {
 
 /// Silences the default panic printer (panics are caught and classified).
 pub fn quiet_panics() {
-    std::panic::set_hook(Box::new(|_| {}));
+    if std::env::var_os("VERIF_LOUD_PANICS").is_none() {
+        std::panic::set_hook(Box::new(|_| {}));
+    }
 }
 
 /// Compares all 32 finalizations of a real generator with the reference.
